@@ -27,6 +27,7 @@ func init() {
 	add(&Property{
 		ID: "C01", Title: "csync locks: one writer or many readers, and only between acquire and release",
 		Sels: []Sel{
+			{Run: "Gstale", Scope: []string{"csync"}},
 			{Run: "Gcsync", Rules: []string{"R12", "R16"}, Exclude: []string{"writeWaiting", "release-called"}},
 			{Run: "R1", Scope: []string{"csync", "broadcast"}, Rules: []string{"R1a", "R1b", "R1d", "R11a"}},
 			{Run: "R2", Scope: []string{"csync", "broadcast"}, Rules: []string{"R2d"}, Prefixes: []string{"csync."}},
@@ -87,6 +88,7 @@ func init() {
 			{Run: "Groutine", Rules: []string{"R4", "R12"}, Contains: []string{"cancel", "derived-context", "current-context", "status-reset", "go-execute", "store-state-before-rebuild", "stored-state-reaches-routine", "closure-captures-copy", "status-writes"}},
 			{Run: "Groutine", Rules: []string{"R5b"}},
 			{Run: "R1", Scope: []string{"routine"}, Rules: []string{"R1a"}, Prefixes: []string{"routine."}},
+			{Run: "R2", Scope: []string{"routine", "broadcast"}, Rules: []string{"R2d"}, Prefixes: []string{"routine."}},
 		},
 		Floors:      map[string]int{"R4": 3, "R12": 5, "R1a": 12, "R5b": 2},
 		Explanation: "Every supersession path cancels the old instance first (slot cleared/overwritten, context changed, new instance spawned); the new instance's context derives from the ctx handed to start, which at every call site is the container's current context; start resets the exit status; the retry timer restarts only a record that is still the registered one, has exited and has a context, under the lock (a superseded routine is not resurrected); all container and record fields, including the state of StateRoutineContainer, are accessed under RoutineContainer.bcast only (R1a) — the static form of 'also under concurrent calls'." + structural,
@@ -97,6 +99,7 @@ func init() {
 	add(&Property{
 		ID: "C06", Title: "keyed: the key set equals what Set/Remove/Sync/refs asked for, delays included",
 		Sels: []Sel{
+			{Run: "Gmapinit", Scope: []string{"keyed"}},
 			{Run: "Gkeyed", Rules: []string{"R6b", "R16"}},
 			{Run: "Gkeyed", Rules: []string{"R5b", "R12"}, Contains: []string{"AddKeyRef", "Release", "RemoveKey"}, Topics: []string{"removal"}},
 			{Run: "R1", Scope: []string{"keyed"}, Rules: []string{"R1a"}, Prefixes: []string{"keyed.Keyed", "keyed.KeyedRefCount", "keyed.runningRoutine.deferRemove"}},
@@ -111,6 +114,7 @@ func init() {
 	add(&Property{
 		ID: "C07", Title: "keyed: per key one live routine, cancelled on removal, retried while wanted",
 		Sels: []Sel{
+			{Run: "Gmapinit", Scope: []string{"keyed"}},
 			{Run: "R3", Scope: []string{"keyed"}, Prefixes: []string{"keyed."}},
 			{Run: "Gkeyed", Rules: []string{"R4", "R5a", "R5c"}},
 			{Run: "Gkeyed", Rules: []string{"R5b", "R12"}, Contains: []string{"restart", "go-execute", "start/", "status-writes", "exit-callbacks", "retry-disabled", "backoff-constructed"}},
@@ -125,6 +129,7 @@ func init() {
 	add(&Property{
 		ID: "C08", Title: "refcount: each resolved value is released exactly once, never exposed afterwards",
 		Sels: []Sel{
+			{Run: "Gmapinit", Scope: []string{"refcount"}},
 			{Run: "Grefcount", Rules: []string{"R7", "R16"}},
 			{Run: "Grefcount", Rules: []string{"R12"}, Contains: []string{"SetContext", "released#"}, Topics: []string{"last-ref"}},
 			{Run: "R1", Scope: []string{"refcount"}, Rules: []string{"R1a"}, Prefixes: []string{"refcount.RefCount"}},
@@ -141,7 +146,7 @@ func init() {
 		Sels: []Sel{
 			{Run: "R3", Scope: []string{"refcount"}, Prefixes: []string{"refcount."}},
 			{Run: "Grefcount", Rules: []string{"R6a"}},
-			{Run: "Grefcount", Rules: []string{"R12", "R7"}, Contains: []string{"released", "AddRef", "begins-with-shutdown", "generation-bump", "store-result"}},
+			{Run: "Grefcount", Rules: []string{"R12", "R7"}, Contains: []string{"released", "AddRef", "begins-with-shutdown", "generation-bump", "store-result", "error-container"}},
 			{Run: "Grefcount", Rules: []string{"R4"}},
 			{Run: "R1", Scope: []string{"refcount", "ccontainer", "promise", "broadcast"}, Rules: []string{"R11"}},
 			{Run: "R1", Scope: []string{"refcount"}, Rules: []string{"R1a"}, Prefixes: []string{"refcount.RefCount"}},
@@ -156,7 +161,7 @@ func init() {
 		ID: "C10", Title: "refcount: consumers get the current value, are cancelled when it is invalidated",
 		Sels: []Sel{
 			{Run: "Grefcount", Rules: []string{"R12", "R13e"}, Contains: []string{"Access", "Wait", "Resolve/", "ResolveWithReleased", "released", "AddRefPromise"}},
-			{Run: "Grefcount", Rules: []string{"R7"}, Contains: []string{"begins-with-shutdown", "generation-bump"}},
+			{Run: "Grefcount", Rules: []string{"R7"}, Contains: []string{"begins-with-shutdown", "generation-bump", "store-result"}},
 			{Run: "R2", Scope: []string{"refcount", "broadcast"}, Rules: []string{"R2a", "R2b", "R2c", "R2d"}, Prefixes: []string{"refcount."}},
 			{Run: "R2", Scope: []string{"promise", "broadcast"}, Rules: []string{"R2a", "R2b", "R2c"}, Prefixes: []string{"promise.(*PromiseContainer)"}},
 			{Run: "R17", Scope: []string{"refcount"}, Rules: []string{"R17", "R2f"}, Prefixes: []string{"refcount.(*RefCount).Access"}},
@@ -198,9 +203,11 @@ func init() {
 	add(&Property{
 		ID: "C13", Title: "no data races inside the library under any concurrent use of its concurrent APIs",
 		Sels: []Sel{
+			{Run: "Gstale", Scope: ConcurrentPkgs},
 			{Run: "R1", Scope: ConcurrentPkgs, Rules: []string{"R1", "R11a", "R11c"}},
 			{Run: "R1ssa", Scope: ConcurrentPkgs, Rules: []string{"R1ssa"}},
 			{Run: "Gqueue", Rules: []string{"R10"}, Contains: []string{"no-write-after-publish", "link-to-loaded-top", "next-read-before-cas"}},
+			{Run: "R2", Rules: []string{"R2d"}},
 		},
 		Floors:      map[string]int{"R1a": 60, "R1b": 12, "R1c": 2, "R1d": 4, "R1a-opt": 1, "R1ssa": 2},
 		Explanation: "Static lockset analysis (R1) over the 14 packages of the concurrency-safe types: for every struct field and every local captured by an escaping closure, all non-construction accesses reached from any entry point hold a common lock, or the variable is never written, atomic, or published by an atomic election followed by a channel close (R1d); callback fields are invoked under their contract lock (R1c); option callbacks run on freshly constructed containers (R1a-opt); every acquired lock is released on every non-panicking path (R11a). Cross-check (R1ssa): every field-access instruction that go/ssa builds for these packages (generic methods and closures included) is matched by an access R1 analysed in some calling context, so the access set the verdict rests on is complete with respect to the compiler's own IR.",
@@ -242,7 +249,7 @@ func init() {
 		Sels: []Sel{
 			{Run: "Gpromise", Rules: []string{"R8"}},
 			{Run: "R1", Scope: []string{"promise", "memo"}, Rules: []string{"R1a", "R1b", "R1d"}, Prefixes: []string{"promise.Once", "promise.(*Once)", "memo.", "promise.Promise."}},
-			{Run: "R17", Scope: []string{"promise"}, Rules: []string{"R17", "R2f"}, Prefixes: []string{"promise.(*Once)"}},
+			{Run: "R17", Scope: []string{"promise"}, Rules: []string{"R17", "R2f"}, Prefixes: []string{"promise.(*Once)", "promise.(*Promise).Await/"}},
 			{Run: "R1", Scope: []string{"promise"}, Rules: []string{"R11a", "R11c"}},
 		},
 		Floors:      map[string]int{"R8": 9, "R1a": 1},
@@ -294,8 +301,9 @@ func init() {
 		Sels: []Sel{
 			{Run: "Gio"},
 			{Run: "R1", Scope: []string{"iocloser"}, Rules: []string{"R1a", "R11a"}},
+			{Run: "Gmapinit", Scope: []string{"unique"}},
 		},
-		Floors:      map[string]int{"R15": 20, "R13c": 3, "R1a": 4},
+		Floors:      map[string]int{"R15": 20, "R13c": 3, "R1a": 4, "R18": 4},
 		Explanation: "Shape conditions: ioseek stores a new offset exactly when it is in range and never before an error return, Read advances by the returned count on every path; iosizer adds exactly the positive count it returns; iocloser.Close detaches stream and close function under the lock on every path and calls the saved function outside it under a nil test, Read/Write use the stream only under the lock after a nil test; ioproxy starts two swapped pumps, each closing both ends and calling back once; unique performs per input value exactly one store/delete with one matching notification, or none after the comparison/absence test.",
 		NotDecided:  "VALUE SEMANTICS ARE NOT DECIDED: equivalence with a section reader, byte order through io.CopyBuffer, replay equality of notifications, 'latest set that differed'.",
 		Assumptions: []string{A5},
